@@ -211,11 +211,16 @@ ARGS = ["", "(x)", "(cap)", "(n)", "(x, y)", "(cap, x)", "(x, cap)", "(n, x)", "
         "(n, true)", "(default=x)", "(x, true)", "(1, x)", "(lst, d)"]      # (lst, d): non-string arguments that carry markup
 
 
+REGRESSION_ARGS = ["", "(x)", "(cap, x)", "(x, y)", "(sep)", "(length=6, end=x, leeway=0)"]
+
+
 def sweep_cases(names, rng, thorough):
     singles = []
     for f in names:
-        for op in OPERANDS:
-            for a in ARGS:
+        for oi, op in enumerate(OPERANDS):
+            for ai, a in enumerate(ARGS):
+                if not thorough and a not in REGRESSION_ARGS and (oi + ai) % 3:
+                    continue
                 singles.append(((f,), "{{ %s|%s%s }}" % (op, f, a)))
     return singles
 
@@ -237,11 +242,15 @@ def fmt_mode(mode, x=XVAL):
     return x
 
 
+CORE_NAMES = [".html", ".htm", ".xml", "a/.html", "partials/.html", "feeds/.xml", "x.html.j2", ".html.j2", "x.htm.jinja", "x.xml.jinja2", "html", "x.HTML", "x.html.",
+              "x..html", "a.html.j2.jinja", "", ".j2", "x.json", "x.yml.jinja2", "js", "é.xml", "a\\b.html", "n\u0000.html", "a.b/c", "index.html", "v1.2/feed.xml", "x.txt"]
+
+
 def name_family(rng, thorough):
     pres = ["", "a", "a/", "a.b/", "x.", "dir/sub/", "é", "a\\b", "n\u0000", ".", "..", "a/.", "index", "v1.2/feed", ".hidden"]
     exts = ["html", "htm", "xml", "json", "json5", "js", "yaml", "yml", "txt", "HTML", "Html", "htmlx", "xhtml", "ht ml", "", "j2", "jinja", "jinja2", "html\u0000"]
     sufs = ["", ".j2", ".jinja", ".jinja2", ".j2.jinja", ".jinja.j2", ".", ".J2", "\u0000", " ", ".j2 "]
-    names = []
+    names = list(CORE_NAMES)
     for p_ in pres:
         for e in exts:
             for joiner in (".", ""):
@@ -560,7 +569,7 @@ def main():
 
     log('[C02] setup done %.1fs' % (time.time() - chk.t0))
     # ---------------- part A: differential + direct oracle ----------------
-    nA = 20000 if chk.thorough else 2500
+    nA = 20000 if chk.thorough else 1000
     progs = []
     for j in range(nA):
         g = make_gen(rng, {"autoescape": False, "strings_with_meta": True}, 2 + rng.below(3))
@@ -652,7 +661,7 @@ def main():
 
     log('[C02] part A done %.1fs' % (time.time() - chk.t0))
     # ---------------- part A': wild contexts, engine only ----------------
-    nW = 10000 if chk.thorough else 1000
+    nW = 10000 if chk.thorough else 400
     wprogs = []
     for j in range(nW):
         g = make_gen(rng, {"autoescape": False, "strings_with_meta": True, "include": j % 4 == 0}, 2 + rng.below(3), engine_only=True)
@@ -663,6 +672,16 @@ def main():
         src = proggen.body_src(g.template(kinds)).replace('"inc0.txt"', '"inc0.html"').replace('"inc1.txt"', '"inc1.html"')
         t = {nm: src, "inc0.html": "{{ s }}{{ h }}{% for z in l %}{{ z }}{% endfor %}", "inc1.html": "{{ q|upper }}{% set c %}{{ h }}{% endset %}{{ c }}"}
         wprogs.append((t, nm, ctx))
+    # fixed regression templates (the shapes of the recorded seeded changes that this oracle catches), always run
+    seed_ctx = {"h": "<a href=\"x\">it's</a>&/", "q": "'\"><", "s": "<b>", "n": 3, "l": ["<i>", "'"], "k": [1], "t": True}
+    for src in ["{{ h|upper }}{{ h|lower|capitalize|trim }}{{ (h ~ '')|upper }}{{ h|string|title }}",
+                "{% set f %}%s|%s{% endset %}{{ f|format(h, q) }}{{ f|format(l, 1) }}{{ '%s'|format(h) }}",
+                "{% set sep %}, {% endset %}{{ [h, q]|join(sep) }}{{ l|join(sep) }}{{ sep|replace(',', h) }}{{ h|replace('a', sep) }}",
+                "{% set c %}{{ h }}{% endset %}{{ c ~ [h] }}{{ c ~ {'k': h} }}{{ [c, h] }}{{ c|list|join(q) }}",
+                "{% set c %}{{ h }}{% endset %}{{ h|striptags }}{{ c|striptags }}{{ c|truncate(length=6, end=h, leeway=0) }}{{ c|indent(2)|wordwrap(3, wrapstring=q) }}",
+                "{% filter default(h, true) %}{% endfilter %}{% filter join(h) %}abc{% endfilter %}{% filter default('<none>', true) %}{% endfilter %}{% filter replace('b', q) %}abc{% endfilter %}",
+                "{% for c in h %}{{ c }}{% endfor %}{% set c %}{{ q }}{% endset %}{% for ch in c %}{{ ch }}{% endfor %}{{ c|first }}{{ c|last }}{{ c[1:3] }}"]:
+        wprogs.insert(0, ({"seed.html": src}, "seed.html", seed_ctx))
     for rel in (False, True):
         outs = run_prog([req(t, nm, ctx) for t, nm, ctx in wprogs], release=rel)
         for (t, nm, ctx), r in zip(wprogs, outs):
@@ -684,7 +703,7 @@ def main():
 
     log('[C02] part W done %.1fs' % (time.time() - chk.t0))
     # ---------------- part B: no double escape ----------------
-    nB = 1500 if chk.thorough else 200
+    nB = 1500 if chk.thorough else 80
     rt_reqs, rt_meta = [], []
     for j in range(nB):
         g = make_gen(rng, {"autoescape": False, "strings_with_meta": True, "break": False}, 1 + rng.below(3), engine_only=True)
@@ -722,13 +741,19 @@ def main():
     dreqs, dmeta = [], []
     if not chk.thorough:
         # quick tier: every name the model escapes, one in six of the others
-        keep, k = [], 0
+        # quick tier: a fixed core (the shapes of the recorded seeds and of the unit tests) + one in four of the names the
+        # model escapes + one in twenty-four of the others
+        keep, k, k2 = [], 0, 0
         for n, mo in zip(names, modes):
-            if mo[:1] != [0]:
+            if n in CORE_NAMES:
                 keep.append((n, mo))
+            elif mo[:1] != [0]:
+                k2 += 1
+                if k2 % 4 == 0:
+                    keep.append((n, mo))
             else:
                 k += 1
-                if k % 6 == 0:
+                if k % 24 == 0:
                     keep.append((n, mo))
         names, modes = [x[0] for x in keep], [x[1] for x in keep]
     for n, mo in zip(names, modes):
@@ -740,7 +765,7 @@ def main():
             c2 = {"x": XVAL}; c2.update(cx)
             dreqs.append(req(t, mainn, c2)); dmeta.append((n, mo[0], lab, t, mainn, c2, gov, want))
     name_bad = []
-    for rel in (False, True):
+    for rel in ((False, True) if chk.thorough else (False,)):
         douts = run_prog(dreqs, release=rel)
         for (n, mo, lab, t, mainn, c2, gov, want), r in zip(dmeta, douts):
             evaluations += 1
@@ -778,7 +803,7 @@ def main():
     if not (okc2 and okr2):
         chk.violation("harness does not build against the current tree", {"theorem_or_correspondence": "build harness/src/bin/c02.rs", "log": (clog3 + clog4)[-1500:]}, True)
         chk.finish()
-    nE = 15000 if chk.thorough else 4000
+    nE = 15000 if chk.thorough else 1500
     ecases = []
     for j in range(nE):
         ninc = rng.below(3)
@@ -791,6 +816,16 @@ def main():
         # so that every call also happens after failed ones
         qs = [("macro", nm) for nm, uc in g.exported if not uc] + [("block", nm) for nm in g.block_names]
         ecases.append((names, bodies, (qs + qs)[:12]))
+    # the shapes of the recorded seeded changes, always run (C02-A5, B5, A6)
+    ecases[:0] = [
+        (["main.html"], [[("auto", 4, [("auto", 0, [("print", 9)])])]], []),
+        (["main.html"], [[("loop", 2, [("auto", 1, [("continue", 1), ("print", 1)])]), ("print", 24)]], []),
+        (["main.html"], [[("loop", 3, [("auto", 3, [("with", [("break", 1)])])]), ("print", 25)]], []),
+        (["m.txt"], [[("loop", 2, [("auto", 2, [("continue", 0)])]), ("print", 26)]], []),
+        (["main.html"], [[("macro", 1, [("auto", 1, [("print", 2), ("fail",)])]), ("macro", 2, [("print", 5)]), ("attempt", 1), ("print", 10)]], [("macro", 1), ("macro", 2), ("macro", 2)]),
+        (["main.html"], [[("macro", 1, [("auto", 3, [("caller",)])]), ("attempt", 1), ("print", 11), ("block", 1, [("print", 12)])]], [("block", 1), ("block", 1)]),
+        (["page.xml", "inc_b.txt"], [[("macro", 1, [("auto", 4, [("include", 1), ("fail",)])]), ("attempt", 1), ("print", 13)], [("print", 14)]], [("macro", 1)]),
+    ]
     epairs = [mode_case(n_, b_, q_) for n_, b_, q_ in ecases]
     emodel = [split_model(m_) for m_ in run_model("C02", "c02-modes", [c_ for _, c_ in epairs])]
     mode_bad = []
@@ -913,7 +948,7 @@ def main():
                 exp = SWEEP_PRELUDE + "{% set zb %}" + bd + "{% endset %}[{{ zb|" + f + a + " }}]"
                 fb_cases.append((f, a, bd, blk, exp))
     if not chk.thorough:
-        fb_cases = [c_ for i_, c_ in enumerate(fb_cases) if i_ % 2 == 0 or c_[1] in ("(x)", "(x, true)", "('<none>', true)", "(x, y)", "(n, x)", "(cap, x)")]
+        fb_cases = [c_ for i_, c_ in enumerate(fb_cases) if i_ % 3 == 0 or c_[1] in ("", "(x)", "(x, true)", "('<none>', true)", "(x, y)", "(sep)")]
     fb_reqs = []
     for f, a, bd, blk, exp in fb_cases:
         fb_reqs.append(req({"t.html": blk}, "t.html", SWEEP_CTX))
@@ -963,7 +998,7 @@ def main():
         for g in names:
             for a in pair_args:
                 pairs.append(((f1, g), "{{ %s|%s%s }}" % (inner, g, a)))
-    cap = 400000 if chk.thorough else 30000
+    cap = 400000 if chk.thorough else 8000
     if len(pairs) > cap:
         step = len(pairs) / float(cap)
         pairs = [pairs[int(i * step)] for i in range(cap)]
